@@ -26,7 +26,7 @@ InfoInit ==
 
 \* kind: "vbr" | "man"; ok: the library accepts the arguments or not; one: one-step variant
 Setup(kind, ok, one) ==
-  /\ s.stage \in {"inited", "chosen"} /\ ~ready
+  /\ s.stage \in {"inited", "chosen", "maybe"} /\ ~ready
   /\ LET ret == IF ok THEN 0 ELSE E_INVAL
          e == IF ok THEN [e |-> IF kind = "man" THEN "SetupManaged" ELSE "SetupVbr", ret |-> 0, ch |-> 2, rate |-> 44100, vcs |-> 1, vch |-> 2, vrate |-> 44100, stone |-> IF one THEN 1 ELSE 0]
               ELSE IF one THEN [ret |-> ret, ch |-> 0, rate |-> 0, vcs |-> 0, vch |-> 0, vrate |-> 0, stone |-> 0]
@@ -36,7 +36,7 @@ Setup(kind, ok, one) ==
   /\ Rec(<<IF one THEN "i" \o kind ELSE kind, IF ok THEN "ok" ELSE "bad">>) /\ UNCHANGED ready
 
 SetupInit ==
-  /\ s.stage \in {"inited", "chosen", "stone"} /\ ~ready
+  /\ s.stage \in {"inited", "chosen", "maybe", "stone"} /\ ~ready
   /\ LET ok == s.stage = "chosen"
          e == [ret |-> IF ok THEN 0 ELSE E_INVAL, vch |-> s.ch, vrate |-> s.rate, stone |-> IF ok \/ s.stage = "stone" THEN 1 ELSE 0]
      IN /\ bad' = bad \cup ChkSetupInit(s, e) /\ s' = NxtSetupInit(s, e)
@@ -45,7 +45,7 @@ SetupInit ==
 
 CtlOps == {"rm2get", "rm2set", "rm2null", "lowget", "lowset", "ibget", "ibset", "cpget", "cpset", "raw"}
 Ctl(w, arg) ==
-  /\ s.stage \in {"chosen", "stone"}          \* documented: ctl must be called after one of the setup calls
+  /\ s.stage \in {"chosen", "maybe", "stone"}          \* documented: ctl must be called after one of the setup calls
   /\ LET frozen == s.stage = "stone"
          isget == w \in {"rm2get", "lowget", "ibget", "cpget"}
          ret == IF w = "raw" THEN E_IMPL ELSE IF isget THEN 0 ELSE IF frozen THEN E_INVAL ELSE 0
